@@ -523,6 +523,13 @@ func (db *DB) LTXDir() string {
 // This is useful for recovering from corrupted or missing LTX files.
 // The database file itself is not modified.
 func (db *DB) ResetLocalState(ctx context.Context) error {
+	// Serialize with sync, checkpoint & snapshot so the position is not
+	// rebuilt while an LTX file is being written.
+	if err := db.lockExec(ctx); err != nil {
+		return err
+	}
+	defer db.execSem.Release(1)
+
 	db.Logger.Info("resetting local litestream state",
 		"meta_path", db.metaPath,
 		"ltx_dir", db.LTXDir())
@@ -538,6 +545,15 @@ func (db *DB) ResetLocalState(ctx context.Context) error {
 	db.maxLTXFileInfos.Unlock()
 
 	db.invalidatePosCache()
+
+	// If the database is live, re-establish the position from the replica so
+	// the next sync continues above everything already replicated instead of
+	// restarting at TXID 1 underneath it.
+	if db.db != nil && db.Replica != nil {
+		if err := db.checkDatabaseBehindReplica(ctx); err != nil {
+			return fmt.Errorf("check database behind replica: %w", err)
+		}
+	}
 
 	db.Logger.Info("local state reset complete, next sync will create fresh snapshot")
 	return nil
